@@ -1,5 +1,9 @@
 import ChiaModel.Props.C08
+#print axioms ChiaModel.C08.bundle_path_eq_block_path_partial
+#print axioms ChiaModel.C08.bundle_path_eq_block_path_reversed_partial
 #print axioms ChiaModel.C08.generator_length
 #print axioms ChiaModel.C08.base_cost_offset
 #print axioms ChiaModel.C11.clvmBytesLen_ok
 #print axioms ChiaModel.C04.limit_exact
+#print axioms ChiaModel.C04.runSpendbundle_limit_exact
+#print axioms ChiaModel.C02.spendbundle_invariants
